@@ -115,10 +115,10 @@ theorem slComp_slOnly (fuel : Nat) (s : SlSt) (comp : Bytes) (special : Bool) (f
   | zero => exact h
   | succ fuel ih =>
     simp only [slComp]
-    generalize hs1 : (if (if special = true then 2 else 3) > s.area then s.reopen (decide (offset ≠ 0)) else s) = s1
+    generalize hs1 : (if (if (special || comp.isEmpty) = true then 2 else 3) > s.area then s.reopen (decide (offset ≠ 0)) else s) = s1
     have h1 : SlOnly s1 := by
       rw [← hs1]
-      by_cases hc : (if special = true then 2 else 3) > s.area
+      by_cases hc : (if (special || comp.isEmpty) = true then 2 else 3) > s.area
       · rw [if_pos hc]; exact reopen_slOnly _ _ h
       · rw [if_neg hc]; exact h
     cases special
@@ -142,6 +142,33 @@ theorem go_slOnly (k : Nat) (cs : List Bytes) (s : SlSt) (h : SlOnly s) : SlOnly
   | nil => exact h
   | cons c cs ih => exact ih _ _ (compStep_slOnly k c s h)
 
+theorem closed_go_slOnly (cs : List Bytes) (s0 : SlSt) (h : SlOnly s0) : SlOnly (closeSl (go 0 cs s0) false) :=
+  closeSl_slOnly _ false (go_slOnly 0 cs s0 h)
+
+theorem newSymlink_slOnly (hasCE : Bool) (a a' : Acc) (target : Bytes) (h : newSymlink hasCE a target = some a') :
+    ∃ dr ce, a'.dr = a.dr ++ dr ∧ a'.ce = a.ce ++ ce ∧
+      (∀ e ∈ dr, ∃ b cs, e = Ent.sl b cs) ∧ (∀ e ∈ ce, ∃ b cs, e = Ent.sl b cs) := by
+  unfold newSymlink at h
+  simp only at h
+  split at h
+  · cases h
+  · simp only [Option.some.injEq] at h
+    subst h
+    have hfun : (fun (s : SlSt) (x : Nat × Bytes) =>
+        match x with
+        | (i, c) =>
+          if i = 0 ∧ c = [] then slComp (c.length + 3) s [47] true 8 0
+          else if c = [46] then slComp 3 s c true 2 0
+          else if c = [46, 46] then slComp 3 s c true 4 0
+          else slComp (c.length + 3) s c false 0 0) = fun s p => compStep p.1 p.2 s := by
+      funext s p; cases p; rfl
+    simp only [hfun, List.range_eq_range', foldl_zip_range']
+    refine ⟨_, _, rfl, rfl, ?_, ?_⟩
+    · intro e he
+      exact closed_go_slOnly _ _ (by intro x hx; simp at hx) e (List.mem_append.mpr (Or.inl he))
+    · intro e he
+      exact closed_go_slOnly _ _ (by intro x hx; simp at hx) e (List.mem_append.mpr (Or.inr he))
+
 /-- `newSymlink` adds SL records only, and they reassemble to the target -/
 theorem newSymlink_proj (hasCE : Bool) (a a' : Acc) (target : Bytes) (ht : target ≠ [])
     (h : newSymlink hasCE a target = some a') :
@@ -150,31 +177,11 @@ theorem newSymlink_proj (hasCE : Bool) (a a' : Acc) (target : Bytes) (ht : targe
   obtain ⟨dr, ce, hdr, hce, hre⟩ := symlink_reassembles hasCE a a' target ht h
   -- the new records are SL records
   have hsl : (∀ e ∈ dr, ∃ b cs, e = Ent.sl b cs) ∧ (∀ e ∈ ce, ∃ b cs, e = Ent.sl b cs) := by
-    unfold newSymlink at h
-    simp only at h
-    split at h
-    · cases h
-    · simp only [Option.some.injEq] at h
-      subst h
-      simp only [List.append_cancel_left_eq] at hdr hce
-      have hfun : (fun (s : SlSt) (x : Nat × Bytes) =>
-          match x with
-          | (i, c) =>
-            if i = 0 ∧ c = [] then slComp (c.length + 3) s [47] true 8 0
-            else if c = [46] then slComp 3 s c true 2 0
-            else if c = [46, 46] then slComp 3 s c true 4 0
-            else slComp (c.length + 3) s c false 0 0) = fun s p => compStep p.1 p.2 s := by
-        funext s p; cases p; rfl
-      rw [hfun, List.range_eq_range', foldl_zip_range'] at hdr hce
-      have h0 : SlOnly (closeSl (go 0 (splitSlash target)
-          { cur := if a.cur + 8 < allowed then a.cur + 5 else a.cur, inDr := decide (a.cur + 8 < allowed),
-            area := if a.cur + 8 < allowed then allowed - a.cur - 5 else 250, open_ := [], doneDr := [], doneCe := [] }) false) := by
-        apply closeSl_slOnly
-        apply go_slOnly
-        intro e he
-        simp at he
-      rw [← hdr, ← hce]
-      exact ⟨fun e he => h0 e (List.mem_append.mpr (Or.inl he)), fun e he => h0 e (List.mem_append.mpr (Or.inr he))⟩
+    obtain ⟨dr2, ce2, hdr2, hce2, hs1, hs2⟩ := newSymlink_slOnly hasCE a a' target h
+    have e1 : dr2 = dr := List.append_cancel_left (hdr2.symm.trans hdr)
+    have e2 : ce2 = ce := List.append_cancel_left (hce2.symm.trans hce)
+    subst e1; subst e2
+    exact ⟨hs1, hs2⟩
   refine ⟨allComps dr, allComps ce, by rw [← allComps_append]; exact hre, ?_⟩
   simp [proj, hdr, hce, nmName_append, allComps_append, nmName_sl dr hsl.1, nmName_sl ce hsl.2]
 
@@ -250,3 +257,65 @@ theorem assign_records (hasCE first : Bool) (ver : Ver) (name : Bytes) (target :
     rw [allComps_append, e3, e4, (hnol hor).1, (hnol hor).2]; rfl
 
 end Pycdlib.Susp
+
+namespace Pycdlib.Susp
+
+/-! ### the first layout pass (no continuation entry) puts nothing into the continuation area -/
+
+theorem put_noCE (a a' : Acc) (e : Ent) (h : put false a e = some a') : a'.ce = a.ce := by
+  unfold put at h
+  split at h
+  · simp at h
+  · cases h; rfl
+
+theorem optPut_noCE (c : Bool) (a a' : Acc) (e : Ent) (h : optPut c false a e = some a') : a'.ce = a.ce := by
+  unfold optPut at h
+  cases c
+  · simp at h; rw [h]
+  · simp only [if_true] at h; exact put_noCE a a' e h
+
+theorem addName_noCE (a a' : Acc) (name : Bytes) (h : addName false a name = some a') : a'.ce = a.ce := by
+  unfold addName at h
+  simp only at h
+  split at h
+  · cases h
+  · rename_i hfit
+    simp only [Bool.not_false, and_true, Nat.not_lt] at hfit
+    simp only [Option.some.injEq] at h
+    subst h
+    have hrest : List.drop (allowed - a.cur - 5) name = [] := List.drop_eq_nil_of_le hfit
+    simp only [hrest, List.length_nil, Nat.zero_add, List.append_nil]
+    have hch : chunks250 1 [] = [] := by simp [chunks250]
+    rw [hch, List.append_nil]
+    by_cases hpos : allowed - a.cur - 5 > 0
+    · simp [hpos, markNm]
+    · simp [hpos, markNm]
+
+theorem assign_noCE (first : Bool) (ver : Ver) (name : Bytes) (target : Option Bytes) (cl re pl : Bool) (cur : Nat)
+    (a : Acc) (h : assign false first ver name target cl re pl cur = some a) : a.ce = [] := by
+  unfold assign at h
+  simp only [Option.bind_eq_some_iff] at h
+  obtain ⟨a1, h1, a2, h2, a3, h3, a4, h4, a5, h5, a6, h6, a7, h7, a8, h8, a9, h9, h10⟩ := h
+  have e1 := optPut_noCE _ _ _ _ h1
+  have e2 := optPut_noCE _ _ _ _ h2
+  have e3 : a3.ce = a2.ce := by
+    by_cases hn : name.isEmpty = true
+    · simp only [hn, if_true, Option.some.injEq] at h3; rw [h3]
+    · simp only [hn] at h3; exact addName_noCE _ _ _ h3
+  have e4 := put_noCE _ _ _ h4
+  have e5 : a5.ce = a4.ce := by
+    cases target with
+    | none => simp only [Option.some.injEq] at h5; rw [h5]
+    | some t =>
+      by_cases hte : t.isEmpty = true
+      · simp only [hte, if_true, Option.some.injEq] at h5; rw [h5]
+      · simp only [hte] at h5; exact newSymlink_noCE _ _ _ h5
+  have e6 := put_noCE _ _ _ h6
+  have e7 := optPut_noCE _ _ _ _ h7
+  have e8 := optPut_noCE _ _ _ _ h8
+  have e9 := optPut_noCE _ _ _ _ h9
+  have e10 := optPut_noCE _ _ _ _ h10
+  rw [e10, e9, e8, e7, e6, e5, e4, e3, e2, e1]
+
+end Pycdlib.Susp
+
